@@ -321,6 +321,14 @@ func ZZ_C04_listUnderSchedules() {
 		c.Nodes = append(c.Nodes, &corev1.Node{ObjectMeta: metav1.ObjectMeta{Name: zzNodeName(i), Labels: map[string]string{}}})
 		c.Pods = append(c.Pods, zzPod("a-"+zzNodeName(i), zzNodeName(i), "foo-a", hashA, 0, corev1.PodRunning, true, nondet.Base().Add(-time.Hour)))
 	}
+	// nodes that exist but that the ExtendedDaemonSet does not target (untolerated taint): a percentage
+	// does not resolve against them
+	if nondet.Bool("twoUntargetedNodes") {
+		for _, name := range []string{"infra0", "infra1"} {
+			c.Nodes = append(c.Nodes, &corev1.Node{ObjectMeta: metav1.ObjectMeta{Name: name, Labels: map[string]string{}},
+				Spec: corev1.NodeSpec{Taints: []corev1.Taint{{Key: "dedicated", Value: "infra", Effect: corev1.TaintEffectNoSchedule}}}})
+		}
+	}
 	c.EDS = append(c.EDS, ds)
 	edsRec, _ := edsctrl.NewReconciler(edsctrl.ReconcilerOptions{DefaultValidationMode: datadoghqv1alpha1.ExtendedDaemonSetSpecStrategyCanaryValidationModeAuto}, c, c.Scheme(), logr.Logger{}, &fakeapi.Recorder{})
 
@@ -361,4 +369,47 @@ func ZZ_C04_listUnderSchedules() {
 	}
 	nondet.Observe("maxListLength", maxSeen)
 	nondet.Reach("C04.sched.canary-selected", maxSeen == 2)
+}
+
+// ZZ_C04_canaryLeavesOtherNodesAlone: "while every other eligible node keeps being served with
+// the active template": the canary replica set's sync touches pods on the canary nodes only — also
+// when the new template narrows the set of eligible nodes (node selector pool=new) so that a node
+// served by the active replica set is not eligible for the new template.
+func ZZ_C04_canaryLeavesOtherNodesAlone() {
+	c, ds, rsNew, rsOld := zzStore(2)
+	ds.Spec.Strategy.Canary = &datadoghqv1alpha1.ExtendedDaemonSetSpecStrategyCanary{}
+	datadoghqv1alpha1.DefaultExtendedDaemonSetSpec(&ds.Spec, datadoghqv1alpha1.ExtendedDaemonSetSpecStrategyCanaryValidationModeAuto)
+	ds.Status.ActiveReplicaSet = rsOld.Name
+	ds.Status.Canary = &datadoghqv1alpha1.ExtendedDaemonSetStatusCanary{ReplicaSet: rsNew.Name, Nodes: []string{zzNodeName(0)}}
+	c.Nodes[0].Labels = map[string]string{"pool": "new"}
+	if nondet.Bool("newTemplateNarrowsEligibility") {
+		rsNew.Spec.Template.Spec.NodeSelector = map[string]string{"pool": "new"}
+	}
+	if nondet.Bool("node1.tainted") {
+		// ... or the new template drops a toleration the active template has
+		c.Nodes[1].Spec.Taints = []corev1.Taint{{Key: "dedicated", Effect: corev1.TaintEffectNoSchedule}}
+		rsOld.Spec.Template.Spec.Tolerations = []corev1.Toleration{{Key: "dedicated", Operator: corev1.TolerationOpExists}}
+	}
+	c.Pods = append(c.Pods, zzPod("active-pod-node1", zzNodeName(1), rsOld.Name, zzHashOld, 0, corev1.PodRunning, true, nondet.Base().Add(-3600*1e9)))
+	if nondet.Bool("canaryPodExists") {
+		c.Pods = append(c.Pods, zzPod("canary-pod", zzNodeName(0), rsNew.Name, zzHashNew, 0, corev1.PodRunning, true, nondet.Base().Add(-60*1e9)))
+	}
+	_, err := zzReconcile(zzReconciler(c, false), zzNS, rsNew.Name)
+	nondet.Assert("C04.others.noerror", err == nil)
+	for _, e := range c.Log {
+		if e.Kind == "Pod" && e.Verb == "delete" {
+			nondet.Assert("C04.others.canary-deletes-only-on-canary-nodes", e.Name != "active-pod-node1")
+		}
+		if e.Kind == "Pod" && e.Verb == "create" {
+			nondet.Assert("C04.others.canary-creates-only-on-canary-nodes", e.Node == zzNodeName(0))
+		}
+	}
+	alive := false
+	for _, p := range c.Pods {
+		if p.Name == "active-pod-node1" {
+			alive = true
+		}
+	}
+	nondet.Assert("C04.others.active-pod-kept", alive)
+	nondet.Observe("alive", alive)
 }
